@@ -5,6 +5,7 @@
 //! Output line: {"id","cfg","status","nodes":[...],"result":[rows],"rust_bad":{"C28":[..],..},...}
 use crate::facts::{self, NodeData};
 use crate::observer::{Recorder, instrument};
+use arrow::array::Array;
 use arrow::compute::{LexicographicalComparator, SortColumn, SortOptions, concat_batches};
 use datafusion::datasource::MemTable;
 use datafusion::logical_expr::SortExpr;
@@ -104,6 +105,72 @@ pub async fn register(ctx: &SessionContext, case: &Value, opts: &ExecOpts) -> Re
     Ok(())
 }
 
+/// Session; with `memory_limit` (bytes) a bounded memory pool so that sorts / aggregations spill.
+fn session_rt(opts: &ExecOpts, cfg: &Value) -> Result<SessionContext, String> {
+    let Some(limit) = cfg["memory_limit"].as_u64() else { return session(opts) };
+    let mut sc = SessionConfig::new();
+    for (k, v) in &opts.settings {
+        sc.options_mut().set(k, v).map_err(|e| format!("config {k}={v}: {e}"))?;
+    }
+    let rt = datafusion::execution::runtime_env::RuntimeEnvBuilder::new()
+        .with_memory_limit(limit as usize, 1.0)
+        .build_arc()
+        .map_err(|e| e.to_string())?;
+    Ok(SessionContext::new_with_config_rt(sc, rt))
+}
+
+/// EXPLAIN ANALYZE rendering: a third physical plan of the query is instrumented, wrapped in the real AnalyzeExec
+/// and run; per node the rendered `output_rows=` is returned together with what the observer above it counted.
+async fn analyze_run(lp: &datafusion::logical_expr::LogicalPlan, state: &datafusion::execution::SessionState, task: Arc<datafusion::execution::TaskContext>) -> Result<Vec<Value>, String> {
+    use datafusion::physical_plan::analyze::AnalyzeExec;
+    let plan = state.query_planner().create_physical_plan(lp, state).await.map_err(|e| e.to_string())?;
+    let rec = Arc::new(Recorder::default());
+    let (root, nodes) = instrument(&plan, &rec).map_err(|e| e.to_string())?;
+    let schema = Arc::new(arrow::datatypes::Schema::new(vec![
+        arrow::datatypes::Field::new("plan_type", arrow::datatypes::DataType::Utf8, false),
+        arrow::datatypes::Field::new("plan", arrow::datatypes::DataType::Utf8, false),
+    ]));
+    let an: Arc<dyn ExecutionPlan> = Arc::new(AnalyzeExec::builder(false, false, root, schema).build());
+    let out = datafusion::physical_plan::collect(an, task).await.map_err(|e| e.to_string())?;
+    let mut text = String::new();
+    for b in &out {
+        let c = b.column(1).as_any().downcast_ref::<arrow::array::StringArray>().ok_or("analyze output column")?;
+        for i in 0..c.len() {
+            text.push_str(c.value(i));
+            text.push('\n');
+        }
+    }
+    let logs = rec.streams.lock().clone();
+    let mut res = vec![];
+    let mut pending: Option<usize> = None;
+    for line in text.lines() {
+        let t = line.trim_start();
+        if let Some(rest) = t.strip_prefix("ObserverExec: id=") {
+            let id: usize = rest.split(|c: char| !c.is_ascii_digit()).next().unwrap_or("").parse().map_err(|_| format!("bad observer line {t}"))?;
+            pending = Some(id);
+        } else if let Some(id) = pending.take() {
+            let rendered = t.split("output_rows=").nth(1).map(|r| r.split(|c| c == ',' || c == ']').next().unwrap_or("").trim().to_string());
+            let np = nodes[id].original.properties().partitioning.partition_count();
+            let mine: Vec<&crate::observer::StreamLog> = logs.iter().filter(|l| l.node == id).collect();
+            let parts: std::collections::HashSet<usize> = mine.iter().map(|l| l.part).collect();
+            let full = (0..np).all(|p| parts.contains(&p)) && mine.iter().all(|l| l.ended && l.error.is_none());
+            let emitted: usize = mine.iter().flat_map(|l| l.batches.iter()).map(|b| b.num_rows()).sum();
+            // counts below 1000 are rendered as plain digits; larger ones are rounded ("1.23 K") and not comparable
+            let exact: i64 = rendered.as_ref().and_then(|r| if r.chars().all(|c| c.is_ascii_digit()) { r.parse().ok() } else { None }).unwrap_or(-1);
+            res.push(json!({"id": id, "name": nodes[id].original.name(), "has": exact >= 0, "rv": exact, "rendered": rendered.unwrap_or_default(),
+                            "emitted": emitted, "full": full}));
+        }
+    }
+    if res.len() != nodes.len() {
+        return Err(format!("EXPLAIN ANALYZE rendering has {} instrumented nodes, plan has {}", res.len(), nodes.len()));
+    }
+    Ok(res)
+}
+
+fn is_oom(e: &str) -> bool {
+    e.contains("Resources exhausted") || e.contains("Not enough memory")
+}
+
 fn sorted_strings(rows: &[Value]) -> Vec<String> {
     let mut v: Vec<String> = rows.iter().map(|r| r.to_string()).collect();
     v.sort();
@@ -136,7 +203,7 @@ async fn run_case_inner(case: &Value) -> Value {
     let cfgname = case["cfg"]["name"].clone();
     let fail = |status: &str, e: String| json!({"id": id, "cfg": cfgname, "status": status, "err": e});
     let opts = opts_of(&case["cfg"]);
-    let ctx = match session(&opts) {
+    let ctx = match session_rt(&opts, &case["cfg"]) {
         Ok(c) => c,
         Err(e) => return fail("tool_err", e),
     };
@@ -177,8 +244,21 @@ async fn run_case_inner(case: &Value) -> Value {
     let (base, inst) = match (base, inst) {
         (Ok(b), Ok(i)) => (b, i),
         (Err(e), Err(_)) => return fail("exec_err", e.to_string()),
+        // under a bounded memory pool resource exhaustion depends on scheduling: not an inertness failure
+        (Ok(_), Err(e)) | (Err(e), Ok(_)) if case["cfg"]["memory_limit"].is_u64() && is_oom(&e.to_string()) => {
+            return fail("exec_err", format!("resource exhaustion in one of the two runs: {e}"));
+        }
         (Ok(_), Err(e)) => return fail("inert_err", format!("only the instrumented plan failed: {e}")),
         (Err(e), Ok(_)) => return fail("inert_err", format!("only the un-instrumented plan failed: {e}")),
+    };
+    let analyze = if case["cfg"]["analyze"].as_bool().unwrap_or(false) {
+        match analyze_run(&lp, &state, ctx.task_ctx()).await {
+            Ok(v) => json!(v),
+            Err(e) if case["cfg"]["memory_limit"].is_u64() && is_oom(&e) => json!([]),
+            Err(e) => return fail("tool_err", format!("analyze: {e}")),
+        }
+    } else {
+        json!([])
     };
     let flat = |v: &Vec<Vec<arrow::record_batch::RecordBatch>>| -> Vec<Value> { v.iter().flat_map(|p| batches_to_rows(p)).collect() };
     let (base_rows, inst_rows) = (flat(&base), flat(&inst));
@@ -213,7 +293,7 @@ async fn run_case_inner(case: &Value) -> Value {
     json!({"id": id, "cfg": cfgname, "status": "ok", "inert": inert, "has_fetch": any_fetch, "plan": plan_text,
            "logical": logical.iter().map(|(t, n)| json!({"t": t, "n": n})).collect::<Vec<_>>(),
            "root": root_schema.iter().map(|(t, n)| json!({"t": t, "n": n})).collect::<Vec<_>>(),
-           "nodes": njs, "result": base_rows, "rust_bad": rb})
+           "nodes": njs, "result": base_rows, "rust_bad": rb, "analyze": analyze})
 }
 
 pub fn main() {
